@@ -69,7 +69,13 @@ class Parser:
         # next_token() refuses to go past one.
         self._current_token = Token(TokenTypes.UNKNOWN)
         self.next_token()
-        return self._script()
+        try:
+            return self._script()
+        except RecursionError:
+            # Braces, brackets or blocks nested beyond what the parser, which
+            # is recursive, can follow.
+            self._code_gen.clear()
+            return self.trigger_error('Nesting is too deep.')
 
     def get_program(self):
         return self._code_gen.program
